@@ -71,6 +71,30 @@ inductive S where
   | vset (s : Nat) (i : E) (v : VE)        -- `s[i] = v`
   deriving Repr
 
+/-- a mesh-level transformation chain applied to a sub-mesh before `Append` (extracted by `go/facts c18.assembly`):
+    `m.Transform(RotateAttribute3DTransformer{Position, q}, RotateAttribute3DTransformer{Normal, q'})` / the helper
+    `rotate(m, q)` with `q = quaternion.FromTheta(theta, axis)`, then `.Translate(t)` -/
+structure Placement where
+  rotPos : Option (FE × VE) := none
+  rotNrm : Option (FE × VE) := none
+  translate : Option VE := none
+  deriving Repr
+
+/-- `if !c.<flag> { mesh = mesh.Append(<circle>.ToMesh()<placement>) }` of `Cylinder.ToMesh` -/
+structure CapAppend where
+  flag : String
+  circle : String
+  place : Placement
+  deriving Repr
+
+/-- one face of `Cube.UnweldedQuads`: `Quad{Width: width, Depth: depth}.ToMesh()<placement>` -/
+structure QuadFace where
+  name : String
+  width : FE
+  depth : FE
+  place : Placement
+  deriving Repr
+
 abbrev Env := Nat → Nat
 abbrev St := Nat → List Nat
 
@@ -206,6 +230,10 @@ def Loc.init (args : List Nat) : Loc α :=
     parameters `fargs` -/
 def Prog.vslice (p : Prog) (tgt : Nat) (args : List Nat) (fargs : List α) : Nat → V3 α :=
   (execV (fun k => fargs.getD k ((0 : Nat) : α)) tgt p.body (Loc.init args) (fun _ => [], fun _ => default)).2.2
+
+/-- the float locals at the end of the constructor's body (function-level `x := …`; loop-body locals are scoped) -/
+def Prog.finalFenv (p : Prog) (args : List Nat) (fargs : List α) : Nat → α :=
+  (execV (fun k => fargs.getD k ((0 : Nat) : α)) 0 p.body (Loc.init args) (fun _ => [], fun _ => default)).1.fenv
 
 /-- the extracted vertex positions: index ↦ vector -/
 def Prog.positions (p : Prog) (args : List Nat) (fargs : List α) : Nat → V3 α := p.vslice p.verts args fargs
